@@ -107,7 +107,8 @@ def rule_fit_to_data(prog, rep):
     li = body.index(loop)
     _controls_unmodified(prog, rep, m, fn, body[:li], site, "fit_to_data", ["max_patience", "max_epochs", "return_best"])
     outs = ["params", "best_params", "losses", "__break__", "key", "opt_state"]
-    got, it = summarise(prog, m, loop.body, EPOCH_IN, outs, NOIN)
+    from .loops import hoisted_callable_defs
+    got, it = summarise(prog, m, hoisted_callable_defs(body[:li], loop.body) + list(loop.body), EPOCH_IN, outs, NOIN)
     for n in outs:
         if has_unknown(got[n]):
             rep.undecided("C16.version", site, f"fit_to_data:{n}", f"unmodelled: {find_unknown(got[n])}")
@@ -257,7 +258,8 @@ def rule_variational(prog, rep):
     state_vars = [v for v in extra_locals if any(isinstance(s, ast.Assign) and any(isinstance(t, ast.Name) and t.id == v for t in s.targets)
                                                  for s in body[:li])]
     outs = ["params", "best_params", "losses", "opt_state"] + state_vars
-    got, it = summarise(prog, m, loop.body, ins + state_vars, outs, NOIN)
+    from .loops import hoisted_callable_defs
+    got, it = summarise(prog, m, hoisted_callable_defs(body[:li], loop.body) + list(loop.body), ins + state_vars, outs, NOIN)
     for n in outs:
         if has_unknown(got[n]):
             rep.undecided("C16.version", site, f"variational:{n}", f"unmodelled: {find_unknown(got[n])}")
